@@ -68,7 +68,7 @@ func runC03(c *Ctx) {
 // ------------------------------------------------------------------------------------------------
 
 func c03DispatchGated(c *Ctx) {
-	c.R.Rule("dispatch-gated", "every call of GraphExecutor.DispatchOperation is edge-dominated by the nil/empty outcome of the gqlerror.List returned by the CreateOperationContext call whose first result is the opCtx argument", 8)
+	c.R.Rule("dispatch-gated", "every call of GraphExecutor.DispatchOperation is edge-dominated by the nil/empty outcome of the gqlerror.List returned by the CreateOperationContext call whose first result is the opCtx argument (when the operation context is a parameter of an unexported helper, the same holds at every call site of that helper)", 8)
 	for _, fn := range c.moduleFuncs(isRuntimePkg) {
 		for _, call := range an.CallsIn(fn, func(ci ssa.CallInstruction, info an.CalleeInfo) bool {
 			n := info.FullName()
@@ -76,31 +76,82 @@ func c03DispatchGated(c *Ctx) {
 		}) {
 			key := shortFn(topFn(fn)) + "→DispatchOperation"
 			args := call.Common().Args
-			opctx := args[len(args)-1]
-			create := an.AllExtractOf(opctx, 0)
-			if create == nil {
-				c.R.Bad(key, c.ipos(call), "the operation context passed to DispatchOperation is not (only) the first result of a CreateOperationContext call in this function")
-				continue
-			}
-			if n := an.CalleeOf(create).FullName(); n != mCreateOp && n != fCreateOp {
-				c.R.Bad(key, c.ipos(call), "the operation context passed to DispatchOperation comes from "+n+", not from CreateOperationContext")
-				continue
-			}
-			// the error list of that call
-			isErrList := func(v ssa.Value) bool {
-				cc := an.AllExtractOf(v, 1)
-				return cc != nil && cc == create
-			}
-			found := ""
-			for _, f := range an.Facts(call) {
-				if empty, ok := an.EmptinessFact(f, isErrList); ok && empty {
-					found = "guard: error list of " + c.ipos(create) + " is nil/empty on the only edge into the dispatch"
-				}
-			}
-			c.R.Check(found != "", key, c.ipos(call), found,
-				"DispatchOperation is reachable without passing the 'error list == nil / len == 0' edge of its CreateOperationContext call: a rejected request could be executed")
+			found, bad := c.gatedOpCtx(fn, call, args[len(args)-1], 0)
+			c.R.Check(bad == "", key, c.ipos(call), found, bad)
 		}
 	}
+}
+
+// gatedOpCtx: at instruction `at` of fn the operation context v is the first result of a CreateOperationContext call whose
+// error list is empty on the only edge into `at`; or v is a parameter of the unexported function fn and that holds for the
+// corresponding argument at every static call site of fn (never started with go/defer, never used as a value).
+func (c *Ctx) gatedOpCtx(fn *ssa.Function, at ssa.Instruction, v ssa.Value, depth int) (witness, bad string) {
+	notGated := "DispatchOperation is reachable without passing the 'error list == nil / len == 0' edge of its CreateOperationContext call: a rejected request could be executed"
+	if create := an.AllExtractOf(v, 0); create != nil {
+		if n := an.CalleeOf(create).FullName(); n != mCreateOp && n != fCreateOp {
+			return "", "the operation context passed to DispatchOperation comes from " + n + ", not from CreateOperationContext"
+		}
+		isErrList := func(x ssa.Value) bool {
+			cc := an.AllExtractOf(x, 1)
+			return cc != nil && cc == create
+		}
+		for _, f := range an.Facts(at) {
+			if empty, ok := an.EmptinessFact(f, isErrList); ok && empty {
+				return "guard: error list of " + c.ipos(create) + " is nil/empty on the only edge into the dispatch", ""
+			}
+		}
+		return "", notGated
+	}
+	// a parameter of an unexported helper
+	var param *ssa.Parameter
+	for _, d := range an.Defs(v) {
+		if p, ok := d.(*ssa.Parameter); ok {
+			param = p
+		}
+	}
+	top := topFn(fn)
+	if param == nil || param.Parent() != top || depth > 2 || top.Object() == nil || top.Object().Exported() {
+		return "", "the operation context passed to DispatchOperation is not (only) the first result of a CreateOperationContext call in this function"
+	}
+	idx := -1
+	for i, p := range top.Params {
+		if p == param {
+			idx = i
+		}
+	}
+	n := 0
+	pkg := pipeline.FuncPkgPath(top)
+	for _, caller := range c.moduleFuncs(func(p string) bool { return p == pkg }) {
+		for _, b := range caller.Blocks {
+			for _, in := range b.Instrs {
+				for _, op := range in.Operands(nil) {
+					if *op == ssa.Value(top) {
+						if ci, isCall := in.(ssa.CallInstruction); !isCall || ci.Common().Value != ssa.Value(top) {
+							return "", "the helper " + shortFn(top) + " that dispatches is also used as a function value (its operation context cannot be traced)"
+						}
+					}
+				}
+				ci, ok := in.(ssa.CallInstruction)
+				if !ok || ci.Common().StaticCallee() != top {
+					continue
+				}
+				if _, isCall := in.(*ssa.Call); !isCall {
+					return "", "the helper " + shortFn(top) + " that dispatches is started with go/defer at " + c.ipos(in)
+				}
+				n++
+				if idx >= len(ci.Common().Args) {
+					return "", notGated
+				}
+				if _, w := c.gatedOpCtx(caller, in, ci.Common().Args[idx], depth+1); w != "" {
+					return "", w + " (through " + shortFn(top) + " called at " + c.ipos(in) + ")"
+				}
+			}
+		}
+	}
+	if n == 0 {
+		return "", "the helper " + shortFn(top) + " that dispatches has no static caller"
+	}
+	return sprintf("operation context is a parameter of %s; gated at its %d call site(s)", shortFn(top), n), ""
 }
 
 // ------------------------------------------------------------------------------------------------
@@ -267,7 +318,10 @@ func (c *Ctx) gqlerrLemma(create, parse *ssa.Function, report bool) {
 				key = shortFn(fn) + "/assert-after:" + callee.Name()
 				var why []string
 				if c.lemmaGqlerr(callee, idx, 0, &why) {
-					c.pruneNotOK(ta)
+					// the !ok edge is infeasible only where the asserted error is known to be non-nil (a nil error takes it)
+					if nonNilAt(ta, ta.X) {
+						c.pruneNotOK(ta)
+					}
 					okf(key, c.ipos(ta), "every error "+shortFn(callee)+" returns is nil or *gqlerror.Error; !ok edge pruned")
 				} else {
 					badf(key, c.ipos(ta), shortFn(callee)+" can return an error that is not *gqlerror.Error ("+firstN(why, 4)+"): the request would fall through the gate on the !ok edge")
@@ -319,7 +373,7 @@ func c03FailClosed(c *Ctx) {
 
 	c.gqlerrLemma(create, parse, true)
 
-	c.R.Rule("fail-closed", "for every gate of CreateOperationContext/parseQuery: its result is tested, and every path from the failure edge ends in a return whose error list is non-empty by construction and never reaches queryCache.Add", 8)
+	c.R.Rule("fail-closed", "for every gate of CreateOperationContext/parseQuery and of the list-returning helpers they call: its result is tested, and every path from the failure edge ends in a return whose error list is non-empty by construction and never reaches queryCache.Add", 6)
 	for _, fn := range c.gateFuncs(create, parse) {
 		for _, g := range c.gatesOf(fn) {
 			key := shortFn(fn) + "/gate:" + g.name
@@ -338,7 +392,7 @@ func c03FailClosed(c *Ctx) {
 						propagated = true
 					}
 				}
-				if _, isHelper := c.validateHelpers()[fn]; isHelper && propagated {
+				if c.gateHelperSet[fn] && propagated {
 					c.R.OK(key, c.ipos(g.call), "result returned to the caller, whose gate on "+fn.Name()+" tests it")
 					continue
 				}
@@ -517,17 +571,53 @@ func (c *Ctx) validateHelpers() map[*ssa.Function]int {
 	return c.valHelpers
 }
 
-// gateFuncs: the functions whose gates are examined: CreateOperationContext, parseQuery and the validation helpers they call.
+// gateFuncs: the functions whose gates are examined: CreateOperationContext, parseQuery and the gate helpers they call.
 func (c *Ctx) gateFuncs(create, parse *ssa.Function) []*ssa.Function {
 	out := []*ssa.Function{create, parse}
 	var hs []*ssa.Function
-	for h := range c.validateHelpers() {
-		if h != create && h != parse {
-			hs = append(hs, h)
-		}
+	for h := range c.gateHelpers(create, parse) {
+		hs = append(hs, h)
 	}
 	sort.Slice(hs, func(i, j int) bool { return hs[i].Name() < hs[j].Name() })
 	return append(out, hs...)
+}
+
+// gateHelpers: functions of package executor reachable through static calls from CreateOperationContext / parseQuery whose last
+// result is a gqlerror.List ("what went wrong, empty if nothing").  A call of one is a gate of its caller — the caller must test
+// the list and fail on the non-empty edge — and the helper's own gates are examined like those of its callers, so a failure
+// inside the helper provably surfaces as a failing return of CreateOperationContext.
+func (c *Ctx) gateHelpers(create, parse *ssa.Function) map[*ssa.Function]bool {
+	if c.gateHelperSet != nil {
+		return c.gateHelperSet
+	}
+	c.gateHelperSet = map[*ssa.Function]bool{}
+	seen := map[*ssa.Function]bool{create: true, parse: true}
+	work := []*ssa.Function{create, parse}
+	for len(work) > 0 {
+		f := work[len(work)-1]
+		work = work[:len(work)-1]
+		for _, call := range an.CallsIn(f, func(_ ssa.CallInstruction, ci an.CalleeInfo) bool {
+			return ci.Static != nil && ci.Static.Pkg != nil && ci.Static.Pkg.Pkg.Path() == pkgExecutor && len(ci.Static.Blocks) > 0
+		}) {
+			h := call.Common().StaticCallee()
+			if seen[h] {
+				continue
+			}
+			seen[h] = true
+			res := h.Signature.Results()
+			if res.Len() == 0 || !strings.HasSuffix(res.At(res.Len()-1).Type().String(), "gqlerror.List") {
+				continue
+			}
+			c.gateHelperSet[h] = true
+			work = append(work, h)
+		}
+	}
+	for h := range c.validateHelpers() {
+		if h != create && h != parse {
+			c.gateHelperSet[h] = true
+		}
+	}
+	return c.gateHelperSet
 }
 
 func (c *Ctx) gatesOf(fn *ssa.Function) []gate {
@@ -571,6 +661,8 @@ func (c *Ctx) gatesOf(fn *ssa.Function) []gate {
 				if h := call.Call.StaticCallee(); h != nil && h != fn {
 					if _, isH := c.validateHelpers()[h]; isH {
 						gs = append(gs, gate{"validate-helper:" + h.Name(), call, resultIs(call, h.Signature.Results().Len()-1), false})
+					} else if c.gateHelperSet[h] {
+						gs = append(gs, gate{"helper:" + h.Name(), call, resultIs(call, h.Signature.Results().Len()-1), false})
 					}
 				}
 			}
